@@ -47,6 +47,7 @@ SCOPE_PREFIXES = [
     "transports::ice::IceCandidate::from_sdp",
     "transports::ice::turn::TurnClient::recv", "transports::ice::turn::parse_", "transports::ice::turn::TurnClient::handle",
     "transports::ice::shared_udp::", "transports::ice::shared_tcp::",
+    "stats_collector::LocalInboundStats::",
 ]
 SCOPE_FUNCS = [
     "transports::sctp::SctpInner::handle_packet", "transports::sctp::SctpInner::handle_init", "transports::sctp::SctpInner::handle_init_ack",
